@@ -61,7 +61,7 @@ HoistLex(h, e, xs) ==
   IF xs = <<>> THEN h
   ELSE LET d == Nd(xs[1]) IN
        LET h1 == CASE d.ty = "decl" /\ d.kind \in {"let", "const"} -> Declare(h, e, d.name, U, FALSE, d.kind = "let")
-                   [] d.ty = "funcdecl" -> LET h2 == Append(h, [k |-> "fun", params |-> d.params, body |-> d.body, env |-> e, name |-> d.name, arrow |-> FALSE, gen |-> (d.gen = 1)])
+                   [] d.ty = "funcdecl" -> LET h2 == Append(h, [k |-> "fun", params |-> d.params, defs |-> d.defs, body |-> d.body, env |-> e, name |-> d.name, arrow |-> FALSE, gen |-> (d.gen = 1)])
                                            IN Declare(h2, e, d.name, Fun(Len(h2)), TRUE, TRUE)
                    [] OTHER -> h
        IN HoistLex(h1, e, Tail(xs))
@@ -173,6 +173,8 @@ UnP(op, a) ==
     [] op = "void" -> U
 
 Un(op, a) == IF op \in {"-", "+"} /\ ToPrim(a).t = "big" THEN Big ELSE UnP(op, a)
+\* logical assignment: does the current value end the evaluation?
+Short(op, cur) == CASE op = "||=" -> ToBoolean(cur) [] op = "&&=" -> ~ToBoolean(cur) [] op = "??=" -> cur.t \notin {"undef", "null"}
 
 ValueKey == <<118,97,108,117,101>>
 DoneKey == <<100,111,110,101>>
@@ -259,6 +261,8 @@ StepFeat ==
                    IF nth <= Len(rs) /\ rs[nth].k = "err" /\ (\E i \in 1..Len(k) : k[i].f = "callret") THEN {"suspend_err_in_call"} ELSE {})
           ELSE {})
     \cup (IF f.f = "mcallA" /\ c.c = "normal" /\ c.v.t \in {"str", "num", "nan", "inf", "nzero", "bool"} THEN {"prim_method"} ELSE {})
+    \cup (IF f.f = "lasgM" /\ c.c = "normal" /\ c.v.t \in {"str", "num", "nan", "inf", "nzero", "bool"} /\ Short(Nd(f.n).op, GetProp(heap, c.v, Nd(f.n).key).v)
+           THEN {"lassign_prim_short"} ELSE {})
     \cup (IF f.f \in {"wbody", "forofB"} /\ c.c \in {"break", "continue"} /\ c.l # "" THEN {"labelled_loop_exit"} ELSE {})
   ELSE IF ctl.m = "ev" THEN
     LET d == Nd(ctl.n) IN
@@ -314,6 +318,14 @@ StepEv(n) == LET d == Nd(n) IN
                  IF ~b.init THEN Go(Ret(Throw(Err("ReferenceError")))) ELSE Go(RetV(S(TypeStr(TypeOf(b.v)))))
          /\ UNCHANGED k /\ Same
     [] d.ty = "assign" -> Go(Ev(d.a)) /\ Push([f |-> "assign", n |-> n]) /\ Same
+    [] d.ty = "lassignv" ->      \* x ||= e, x &&= e, x ??= e : the right-hand side is evaluated (and assigned) only if the current value does not short-circuit
+         LET e == FindEnv(heap, env, d.name) IN
+         IF e = NoEnv THEN Go(Ret(Throw(Err("ReferenceError")))) /\ UNCHANGED k /\ Same
+         ELSE LET b == heap[e].vars[VarIdx(heap, e, d.name)] IN
+              IF ~b.init THEN Go(Ret(Throw(Err("ReferenceError")))) /\ UNCHANGED k /\ Same
+              ELSE IF Short(d.op, b.v) THEN Go(RetV(b.v)) /\ UNCHANGED k /\ Same
+              ELSE Go(Ev(d.a)) /\ Push([f |-> "assign", n |-> n]) /\ Same
+    [] d.ty = "lassignm" -> Go(Ev(d.a)) /\ Push([f |-> "lasgM", n |-> n]) /\ Same      \* o.k ||= e ... : the base is evaluated once
     [] d.ty = "bin" -> Go(Ev(d.a)) /\ Push([f |-> "binL", n |-> n]) /\ Same
     [] d.ty = "logical" -> Go(Ev(d.a)) /\ Push([f |-> "logical", n |-> n]) /\ Same
     [] d.ty = "unary" ->
@@ -333,7 +345,7 @@ StepEv(n) == LET d == Nd(n) IN
                         /\ Go(RetV(IF d.prefix = 1 THEN new ELSE old)) /\ UNCHANGED <<k, env, out>>
     [] d.ty = "cond" -> Go(Ev(d.a)) /\ Push([f |-> "cond", n |-> n]) /\ Same
     [] d.ty = "func" ->
-         /\ heap' = Append(heap, [k |-> "fun", params |-> d.params, body |-> d.body, env |-> env, name |-> d.name, arrow |-> (d.arrow = 1), gen |-> (d.gen = 1)])
+         /\ heap' = Append(heap, [k |-> "fun", params |-> d.params, defs |-> d.defs, body |-> d.body, env |-> env, name |-> d.name, arrow |-> (d.arrow = 1), gen |-> (d.gen = 1)])
          /\ Go(RetV(Fun(Len(heap) + 1))) /\ UNCHANGED <<k, env, out>>
     [] d.ty \in {"call", "new"} -> Go(Ev(d.f)) /\ Push([f |-> "callF", n |-> n]) /\ Same
     [] d.ty = "order" -> Go(Ev(d.a)) /\ Push([f |-> "order"]) /\ Same
@@ -350,7 +362,12 @@ StepEv(n) == LET d == Nd(n) IN
     [] d.ty = "this" ->
          LET e == FindEnv(heap, env, "this") IN
          Go(RetV(IF e = NoEnv THEN U ELSE heap[e].vars[VarIdx(heap, e, "this")].v)) /\ UNCHANGED k /\ Same
-    [] d.ty = "forof" -> Go(Ev(d.a)) /\ Push([f |-> "forofA", n |-> n]) /\ Same
+    [] d.ty = "forof" ->
+         \* ForIn/OfHeadEvaluation: with a let/const binding the iterable is evaluated in a scope where the name is in its dead zone
+         IF d.kind = "var" THEN Go(Ev(d.a)) /\ Push([f |-> "forofA", n |-> n, e |-> env]) /\ Same
+         ELSE LET h0 == NewEnv(heap, env) e == Len(h0) IN
+              /\ heap' = Declare(h0, e, d.name, U, FALSE, TRUE) /\ env' = e /\ UNCHANGED out
+              /\ Go(Ev(d.a)) /\ Push([f |-> "forofA", n |-> n, e |-> env])
     [] d.ty = "seq" -> Go(Ev(d.xs[1])) /\ Push([f |-> "seq", xs |-> d.xs, i |-> 1]) /\ Same
     \* ----- statements
     [] d.ty = "exprstmt" -> Go(Ev(d.a)) /\ Push([f |-> "discard"]) /\ Same
@@ -379,6 +396,14 @@ StepEv(n) == LET d == Nd(n) IN
     [] d.ty = "labeled" -> Go(Ev(d.body)) /\ Push([f |-> "label", l |-> d.label]) /\ Same
 
 \* a loop frame absorbs break/continue addressed to it (unlabelled, or labelled with its own label)
+RECURSIVE NeedDefault(_, _, _)
+NeedDefault(fn, args, i) == IF i > Len(fn.params) THEN 0
+                            ELSE IF fn.defs[i] # 0 /\ (i > Len(args) \/ args[i].t = "undef") THEN i ELSE NeedDefault(fn, args, i + 1)
+\* enter a function body: hoist its declarations into the function scope e, run the statement list, return to callerEnv
+EnterBody(h, e, body, callerEnv, nw, rest) ==
+  /\ heap' = HoistLex(HoistVars(h, e, VarNamesList(body.xs)), e, body.xs) /\ env' = e /\ UNCHANGED out
+  /\ IF body.xs = <<>> THEN Go(RetV(U)) /\ k' = <<[f |-> "callret", e |-> callerEnv, nw |-> nw]>> \o rest
+     ELSE Go(Ev(body.xs[1])) /\ k' = <<[f |-> "list", xs |-> body.xs, i |-> 1], [f |-> "callret", e |-> callerEnv, nw |-> nw]>> \o rest
 Mine(f, c) == c.l = "" \/ c.l = f.lbl
 
 StepRet == LET c == ctl.c IN
@@ -401,6 +426,7 @@ StepRet == LET c == ctl.c IN
            /\ Go(IF c.c \in {"throw", "unmodelled"} THEN Ret(c)
                  ELSE IF f.nw.t = "ref" THEN (IF c.c = "return" /\ c.v.t \in {"ref", "fun", "err"} THEN RetV(c.v) ELSE RetV(f.nw))
                  ELSE IF c.c = "return" THEN RetV(c.v) ELSE RetV(U))
+      ELSE IF c.c = "unmodelled" THEN Go(ctl) /\ k' = rest /\ Same    \* outside the model: no handler and no finally block may turn it into something judged
       ELSE IF c.c # "normal" THEN
         \* abrupt completion travelling outwards
         CASE f.f \in {"wtest", "wbody"} /\ c.c = "break" /\ Mine(f, c) -> Go(RetV(U)) /\ k' = rest /\ Same
@@ -484,6 +510,13 @@ StepRet == LET c == ctl.c IN
                IF f.base.t \in {"undef", "null"} THEN Go(Ret(Throw(Err("TypeError")))) /\ k' = rest /\ Same
                ELSE IF f.base.t \in {"fun", "err"} \/ v.t \in {"fun", "err"} \/ ToPrim(v).t = "big" THEN Go(Ret(Abrupt("unmodelled", U, ""))) /\ k' = rest /\ Same
                ELSE LET g == GetProp(heap, f.base, KeyOf(heap, v)) IN Go(RetV(g.v)) /\ k' = rest /\ Same
+          [] f.f = "lasgM" ->
+               LET d == Nd(f.n) IN
+               IF v.t \in {"undef", "null"} THEN Go(Ret(Throw(Err("TypeError")))) /\ k' = rest /\ Same
+               ELSE IF v.t \in {"fun", "err"} \/ (v.t = "ref" /\ heap[v.a].k = "gen") THEN Go(Ret(Abrupt("unmodelled", U, ""))) /\ k' = rest /\ Same
+               ELSE LET cur == GetProp(heap, v, d.key).v IN
+                    IF Short(d.op, cur) THEN Go(RetV(cur)) /\ k' = rest /\ Same
+                    ELSE Go(Ev(d.c)) /\ k' = <<[f |-> "setmB", base |-> v, key |-> d.key]>> \o rest /\ Same
           [] f.f = "setmA" -> Go(Ev(Nd(f.n).c)) /\ k' = <<[f |-> "setmB", base |-> v, key |-> Nd(f.n).key]>> \o rest /\ Same
           [] f.f = "setiA" -> Go(Ev(Nd(f.n).b)) /\ k' = <<[f |-> "setiB", n |-> f.n, base |-> v]>> \o rest /\ Same
           [] f.f = "setiB" -> IF ToPrim(v).t = "big" THEN Go(Ret(Abrupt("unmodelled", U, ""))) /\ k' = rest /\ Same
@@ -505,8 +538,8 @@ StepRet == LET c == ctl.c IN
                ELSE Go(Ev(d.args[1])) /\ k' = <<[f |-> "callA", n |-> f.n, fv |-> g.v, args |-> <<>>, thisv |-> v]>> \o rest /\ Same
           [] f.f = "forofA" ->
                IF ~(v.t = "ref" /\ heap[v.a].k = "arr") THEN
-                  (IF v.t = "str" \/ IsGen(heap, v) THEN Go(Ret(Abrupt("unmodelled", U, ""))) ELSE Go(Ret(Throw(Err("TypeError"))))) /\ k' = rest /\ Same
-               ELSE Go(RetV(U)) /\ k' = <<[f |-> "forofN", n |-> f.n, arr |-> v.a, i |-> 0, lbl |-> "", e |-> env]>> \o rest /\ Same
+                  (IF v.t = "str" \/ IsGen(heap, v) THEN Go(Ret(Abrupt("unmodelled", U, ""))) ELSE Go(Ret(Throw(Err("TypeError"))))) /\ k' = rest /\ env' = f.e /\ UNCHANGED <<heap, out>>
+               ELSE Go(RetV(U)) /\ k' = <<[f |-> "forofN", n |-> f.n, arr |-> v.a, i |-> 0, lbl |-> "", e |-> f.e]>> \o rest /\ env' = f.e /\ UNCHANGED <<heap, out>>
           [] f.f = "forofN" ->
                LET d == Nd(f.n) a == heap[f.arr].e IN
                IF f.i >= Len(a) THEN Go(RetV(U)) /\ k' = rest /\ env' = f.e /\ UNCHANGED <<heap, out>>
@@ -601,11 +634,18 @@ StepRet == LET c == ctl.c IN
                         h1a == Bind(h0, 1)
                         h1 == IF fn.arrow THEN h1a ELSE Declare(h1a, e, "this", thisv, TRUE, FALSE)
                         body == Nd(fn.body)
-                        h2 == HoistVars(h1, e, VarNamesList(body.xs))
-                        h3 == HoistLex(h2, e, body.xs)
-                    IN /\ heap' = h3 /\ env' = e /\ UNCHANGED out
-                       /\ IF body.xs = <<>> THEN Go(RetV(U)) /\ k' = <<[f |-> "callret", e |-> env, nw |-> nw]>> \o rest
-                          ELSE Go(Ev(body.xs[1])) /\ k' = <<[f |-> "list", xs |-> body.xs, i |-> 1], [f |-> "callret", e |-> env, nw |-> nw]>> \o rest
+                        \* parameters whose argument is undefined (missing or explicit) and that have a default initialiser, in order
+                        need == NeedDefault(fn, f.args, 1)
+                    IN IF need = 0 THEN EnterBody(h1, e, body, env, nw, rest)
+                       ELSE /\ heap' = h1 /\ env' = e /\ UNCHANGED out /\ Go(Ev(fn.defs[need]))
+                            /\ k' = <<[f |-> "pdef", fa |-> f.fv.a, i |-> need, args |-> f.args, e |-> env, nw |-> nw]>> \o rest
+          [] f.f = "pdef" ->
+               \* a default initialiser was evaluated (in the function scope, earlier parameters visible): bind it, go on with the next one
+               LET fn == heap[f.fa]
+                   h1 == SetBinding(heap, env, fn.params[f.i], v)
+                   need == NeedDefault(fn, f.args, f.i + 1)
+               IN IF need = 0 THEN EnterBody(h1, env, Nd(fn.body), f.e, f.nw, rest)
+                  ELSE /\ heap' = h1 /\ UNCHANGED <<env, out>> /\ Go(Ev(fn.defs[need])) /\ k' = <<[f EXCEPT !.i = need]>> \o rest
 
 Next == /\ st = "run" /\ steps < MaxSteps /\ steps' = steps + 1 /\ UNCHANGED pi
         /\ feat' = feat \cup StepFeat
